@@ -80,7 +80,7 @@ def validate_spec(r):
         res = json.loads(out.split("@@JSON@@")[1])
         lits = [f"(obs_pairs ({spec} {C.zlit(c['first'])} {c['codelen']} {C.blist(c['tab'])}), {C.zlist(o['fls'])})" for c, o in zip(cases, res) if "fls" in o]
         bad, errs = C.coq_cases(r.wd, "spec" + v.replace(".", ""), HEADER, "list Z * list Z", "fun c => zlist_eqb (fst c) (snd c)", lits)
-        if errs or bad:
+        if C.spec_problem(r, errs, bad):
             print(f"MACHINERY-ERROR: lnotab spec disagrees with CPython {v}:", errs[:1], [cases[b] for b in bad[:3]], [res[b] for b in bad[:3]])
             raise SystemExit(2)
         total += len(lits)
@@ -95,7 +95,7 @@ def validate_spec(r):
         if "lines" in o:
             lits.append(f"(obs_triples (spec_lines_310 {C.zlit(c['first'])} {C.blist(c['tab'])}) ++ obs_pairs (spec_fls (spec_lines_310 {C.zlit(c['first'])} {C.blist(c['tab'])}) None), {C.zlist(o['lines'] + o['fls'])})")
     bad, errs = C.coq_cases(r.wd, "spec310", HEADER, "list Z * list Z", "fun c => zlist_eqb (fst c) (snd c)", lits)
-    if errs or bad:
+    if C.spec_problem(r, errs, bad):
         print("MACHINERY-ERROR: 3.10 line-table spec disagrees with CPython 3.10:", errs[:1], [cases[b] for b in bad[:3]], [res[b] for b in bad[:3]])
         raise SystemExit(2)
     total += len(lits)
@@ -116,7 +116,7 @@ def validate_spec(r):
             lits.append(f"(encode_entries {el} ++ obs_triples (sem_lines {merged} {C.zlit(f)} {el}) ++ {flsterm} ++ obs_positions (sem_positions {C.zlit(f)} {el}), "
                         f"{C.zlist(c['tab'] + o['lines'] + o['fls'] + o['positions'])})")
         bad, errs = C.coq_cases(r.wd, "spec" + v.replace(".", ""), HEADER, "list Z * list Z", "fun c => zlist_eqb (fst c) (snd c)", lits, chunk=200)
-        if errs or bad:
+        if C.spec_problem(r, errs, bad):
             print(f"MACHINERY-ERROR: location-table spec disagrees with CPython {v}:", errs[:1], [(ents[b], res[b]) for b in bad[:2]])
             raise SystemExit(2)
         total += len(lits)
